@@ -28,6 +28,13 @@ fn new_client<C: MlsConfig>(w: &mut World<C>, mk: Mk<C>, name: &str) -> usize {
     w.members.len() - 1
 }
 
+fn rcv_join_ok<C: MlsConfig>(rc: Option<mls_rs::group::ReinitClient<C>>, wm: &MlsMessage) -> bool {
+    match rc {
+        Some(rc) => rc.join(wm, None, None).is_ok(),
+        None => false,
+    }
+}
+
 /// commit by `c` built with `f`, applied by `c`, processed by every other member that has a group
 fn commit_all<C: MlsConfig>(
     w: &mut World<C>,
@@ -250,6 +257,28 @@ fn scenario<C: MlsConfig>(rng: &mut Rng, mk: Mk<C>, out: &mut Out, qa: &mut QA, 
                 if w.members[outsider].client.join_group(None, wm, None).is_ok() {
                     out.fails.push("an outsider joined the re-initialised group through a Welcome".into());
                 }
+            }
+            // an imposter without the old group's state: it presents the creator's identity with keys of its own, creates a group
+            // with the successor's id and adds an old member's re-init key package by an ordinary commit (no PSK at all); the old
+            // member's ReinitClient must refuse that Welcome, whose key schedule does not depend on the old group
+            if let Some((victim, _)) = rcs.first() {
+                let cname = w.members[creator].setup.name.clone();
+                let imp = new_client(&mut w, mk, &cname);
+                let rcv = w.group(*victim).clone().get_reinit_client(None, None).unwrap();
+                let vkp = rcv.generate_key_package(None).unwrap();
+                if let Ok(mut ig) = w.members[imp].client.create_group_with_id(new_gid.clone(), Default::default(), Default::default(), None) {
+                    if let Ok(co) = ig.commit_builder().add_member(vkp).and_then(|b| b.build()) {
+                        let _ = ig.apply_pending_commit();
+                        for wm in &co.welcome_messages {
+                            out.cases += 1;
+                            if rcv_join_ok(w.group(*victim).clone().get_reinit_client(None, None).ok(), wm) {
+                                out.fails.push("an old member's ReinitClient joined a successor created by a party without the old group's state (Welcome without the re-init PSK)".into());
+                            }
+                        }
+                        out.cover.insert("imposter-successor".into());
+                    }
+                }
+                drop(rcv);
             }
             // an old member using a plain join (without the old group's resumption secret) is refused as well
             if let Some((i, _)) = rcs.first() {
